@@ -578,6 +578,8 @@ class FakeSocket:
         p = None
         if self.send_plan:
             p = self.send_plan.popleft()
+            if callable(p):
+                p = p(data)
         elif self.send_default is not None:
             p = self.send_default(data)
         if p is None:
